@@ -131,7 +131,20 @@ Section TLV.
   | RCrash
   | RTooMany.                                   (* ValueError after MAX_REASSEMBLY *)
 
-  Fixpoint reassemble (max : nat) (replies : list bytes) (buffer : bytes) (acks : nat) : reasm :=
+  (* items of a payload that are not fragment items: they are part of the reply too (repaired loop,
+     /repo acb2c25) and are kept in arrival order; the reassembled items come after them, so in
+     dict(siblings + reassembled) a reassembled item wins over a sibling of the same type *)
+  Definition nonfrag (items : list item) : list item :=
+    filter (fun kv => negb (N.eqb (fst kv) 12 || N.eqb (fst kv) 13)) items.
+
+  Definition finish_buf (acks : nat) (sib : list item) (buffer : bytes) : reasm :=
+    match decode buffer with
+    | Ok r => RDone acks (sib ++ r)
+    | Err e => RFail acks e
+    | _ => RCrash
+    end.
+
+  Fixpoint reassemble (max : nat) (replies : list bytes) (buffer : bytes) (sib : list item) (acks : nat) : reasm :=
     match max with
     | O => RTooMany
     | S m =>
@@ -140,17 +153,13 @@ Section TLV.
         | data :: rest =>
             match decode data with
             | Ok items =>
+                let sib' := sib ++ nonfrag items in
                 match lookup 13 items with
-                | Some last =>
-                    match decode (buffer ++ last) with
-                    | Ok r => RDone acks r
-                    | Err e => RFail acks e
-                    | _ => RCrash
-                    end
+                | Some last => finish_buf acks sib' (buffer ++ last)
                 | None =>
                     match lookup 12 items with
-                    | Some part => reassemble m rest (buffer ++ part) (S acks)
-                    | None => RDone acks items
+                    | Some part => reassemble m rest (buffer ++ part) sib' (S acks)
+                    | None => finish_buf acks sib' buffer     (* an unterminated buffer is decoded too *)
                     end
                 end
             | Err e => RFail acks e
@@ -164,4 +173,4 @@ Definition tlv_encode := encode_list 255.
 Definition tlv_decode := decode.
 Definition tlv_decode_exp := decode_exp.
 Definition tlv_spec_encode := spec_encode 255.
-Definition tlv_reassemble := fun replies => reassemble 50 replies [] 0.
+Definition tlv_reassemble := fun replies => reassemble 50 replies [] [] 0.
